@@ -25,7 +25,7 @@ RULE = ('strata: S = every token sequence up to the length bound over {(,),and,o
         'quoted string}; T = one-token rules; E = one-edit corruptions (delete/insert/replace/unbalance) of grammatical '
         'sentences; R = random ASCII/Unicode strings built from rule fragments, exotic whitespace, quotes, full-width '
         'parentheses; V = JSON/YAML scalars and containers as rule values, alone and inside lists, through parse_rule, '
-        'Rules.from_dict, Rules.load (JSON and YAML text) and a file-backed Enforcer; LS = lists of arbitrary strings and lists of strings (must load and evaluate); O = a malformed rule or non-rule value loaded and enforced by one thread while another thread loads a permissive well-formed rule (pre-emption at sampled line boundaries, deterministic scheduler). Each rule is enforced under the '
+        'Rules.from_dict, Rules.load (JSON and YAML text) and a file-backed Enforcer; LS = lists of arbitrary strings and lists of strings (must load and evaluate); stratum first-use: in a fresh interpreter per schedule a malformed rule and a permissive rule are the very first rules the process loads, by two threads at once; O = a malformed rule or non-rule value loaded and enforced by one thread while another thread loads a permissive well-formed rule (pre-emption at sampled line boundaries, deterministic scheduler). Each rule is enforced under the '
         'empty, single-role, all-role and an "everything" credential. Non-trivial = the recogniser rejects the string, '
         'or the value is not a string/list-of-strings; distinct = distinct rule value and transport.')
 ASSUMPTIONS = [
@@ -37,8 +37,8 @@ LEVEL_TEXT = ('All rejected token sequences up to 6 (thorough: 7, and 8 over the
               'values are driven through the real loader and enforcer and must fail closed; random strings and corruptions '
               'sample the rest. "Denies for every credential" over an infinite input set is reachable only by such a sweep.')
 LEVEL_NOTE = 'trusted: the independent recogniser; PyYAML/JSON as transports; probe credentials stand for "every credential"'
-PLAN = {'quick': dict(shards=8, wall=70), 'thorough': dict(shards=16, wall=500)}
-MIN = {'overlapping_evaluations': 200, 'evaluations': 1000, 'rejected_strings': 500, 'accepted_strings': 100, 'nonrule_values': 30, 'string_lists': 100, 'enforce_calls': 5000}
+PLAN = {'quick': dict(shards=8, wall=120), 'thorough': dict(shards=16, wall=500)}
+MIN = {'first_use_schedules': 24, 'overlapping_evaluations': 200, 'evaluations': 1000, 'rejected_strings': 500, 'accepted_strings': 100, 'nonrule_values': 30, 'string_lists': 100, 'enforce_calls': 5000}
 ANCHORS = ['oslo_policy._parser:parse_rule', 'oslo_policy._parser:_parse_text_rule', 'oslo_policy._parser:_parse_check',
            'oslo_policy._parser:_parse_list_rule', 'oslo_policy.policy:Rules.load', 'oslo_policy.policy:Rules.from_dict',
            'oslo_policy.policy:Enforcer.enforce', 'oslo_policy.policy:parse_file_contents']
@@ -615,6 +615,7 @@ def run(ctx):
                                           rseed='%s.%d.%d' % (ctx.tier, ctx.shard, i)))
     finally:
         sched.uninstall()
+    run_first_use(ctx)
     for k, v in contracts.EVALS.items():
         ctx.count('contract_evals.' + k, v)
 
@@ -664,8 +665,46 @@ def check_overlap(ctx, real, case):
             ctx.violation(key, case, dict(detail, observed=got))
 
 
+FIRST_USE = {'quick': dict(sampled=3, cap=14), 'thorough': dict(sampled=30, cap=120)}
+FIRST_USE_BAD = ['role:a role:b', 'not', '( role:a', 'role:a or', '"role:a"', 'role:a )', 'and role:a', 'role:a and or role:b']
+FIRST_USE_GOOD = ['@', 'role:a or not role:a', 'not !', '(@)']
+
+
+def judge_first_use(ctx, case, base, got):
+    """The very first rules this process loads are a malformed one and a permissive one, loaded by two threads at the same
+    time: the malformed one denies everybody, the permissive one allows everybody."""
+    bad_is = case['pair'].index(case['bad']) if 'bad' in case else 0
+    for n, idx in (('A', 0), ('B', 1)):
+        first = got['first'].get(n)
+        decisions = first[1] if isinstance(first, list) else first
+        want_allow = idx != bad_is
+        ok = isinstance(decisions, list) and all(d is want_allow for d in decisions)
+        if not ok:
+            raised = not isinstance(decisions, list) or any(isinstance(d, str) for d in decisions)
+            key = ('rejected-sentence-enforce-raises' if raised else 'rejected-sentence-allows') if not want_allow else 'accepted-sentence-mismatch'
+            ctx.violation(key, case, {'rule': case['pair'][idx], 'expected': 'deny for every credential' if not want_allow else 'allow',
+                                      'observed': decisions, 'situation': 'first use of the library in this process, two threads at once',
+                                      'a_preempted_at_boundary': case['k'], 'a_preempted_at': got['stopped_at'].get('A'),
+                                      'one_after_the_other': base['first'].get(n)})
+            return
+
+
+def run_first_use(ctx):
+    from pv.mon import firstuse
+    ctx.stratum('first-use', exhaustive=False)
+    bad = FIRST_USE_BAD[ctx.shard % len(FIRST_USE_BAD)]
+    good = FIRST_USE_GOOD[ctx.shard % len(FIRST_USE_GOOD)]
+    pair = [bad, good] if (ctx.shard // 2) % 2 == 0 else [good, bad]
+    b = FIRST_USE[ctx.tier]
+    firstuse.schedules(ctx, pair, lambda c, case, base, got: judge_first_use(c, dict(case, bad=bad), base, got), b['sampled'], b['cap'],
+                       parity=ctx.shard % 2 if ctx.tier == 'quick' else None)
+
+
 def replay(ctx, case):
     contracts.parse_rule_returns_check()
+    if case.get('first_use'):
+        from pv.mon import firstuse
+        return firstuse.replay_one(ctx, case, judge_first_use)
     real = Real()
     s = case.get('s')
     if s == 'O':
